@@ -53,7 +53,7 @@ func genGroupItems(t *rapid.T) []val.Value {
 		case 1: // non-string key
 			m["g"] = rapid.SampledFrom([]val.Value{val.N(1), val.True, val.A(val.S("a"))}).Draw(t, "badKey")
 		default:
-			m["g"] = val.S(rapid.SampledFrom([]string{"a", "b", "c", "d", "a", "b"}).Draw(t, "g"))
+			m["g"] = val.S(rapid.SampledFrom([]string{"a", "b", "c", "d", "a", "b", "", "a b"}).Draw(t, "g"))
 		}
 		m["n"] = val.N(float64(rapid.IntRange(1, 3).Draw(t, "n")))
 		if rapid.IntRange(0, 5).Draw(t, "hasV") > 0 {
@@ -249,7 +249,7 @@ type objFnCase struct {
 func genFlatObject(t *rapid.T, label string) val.Value {
 	n := rapid.IntRange(0, 5).Draw(t, label+"N")
 	m := map[string]val.Value{}
-	names := []string{"a", "b", "c", "d", "e", "k y", "é"}
+	names := []string{"a", "b", "c", "d", "e", "k y", "é", ""}
 	for i := 0; i < n; i++ {
 		k := rapid.SampledFrom(names).Draw(t, label+"K")
 		m[k] = rapid.SampledFrom([]val.Value{val.N(1), val.N(2), val.S("s"), val.True, val.False, val.N(0), val.S(""), val.A(val.N(1), val.N(2)), val.A(), val.O(map[string]val.Value{"z": val.N(1)}), val.A(val.A(val.N(1)))}).Draw(t, label+"V")
@@ -353,6 +353,20 @@ func objFnCheck(o, o2 val.Value) (string, int) {
 		}
 	} else if !ok || !multisetEqual(normPairs(gotE), normPairs(pairs)) {
 		return fmt.Sprintf("$each visited %v, the members are %v", gotE, pairs), evals
+	}
+	// every member is represented by its function result, whatever that result
+	// is (0, "" and false included): results of the scalar members
+	var scalars []val.Value
+	for _, k := range o.Keys() {
+		if v := o.O[k]; v.K == val.Num || v.K == val.Str || v.K == val.Bool {
+			scalars = append(scalars, v)
+		}
+	}
+	if len(scalars) > 0 {
+		gotS, ok := asList(run(`$each($sift(o, function($v){$type($v) in ["number", "string", "boolean"]}), function($v){$v})`))
+		if !ok || !multisetEqual(gotS, scalars) {
+			return fmt.Sprintf("$each(o, function($v){$v}) over the scalar members gives %v, their values are %v", gotS, scalars), evals
+		}
 	}
 	if n > 0 {
 		r := run(`$sift(o, function($v, $k){true})`)
